@@ -473,6 +473,7 @@ def step (line : String) : String :=
       | some ds, some k => pC09 k ds
       | _, _ => "not-json"
   | ["p_display_wide", _] => "n/a"
+  | ["p_wide_algebra", _] => "n/a"
   | "p_readd" :: k :: idx :: hs =>
       match docsOfHex hs, k.toNat?, idx.toNat? with
       | some ds, some k, some i => pReadd k i ds
